@@ -607,3 +607,44 @@ STANDIN = {r"table\.columns": TABLE_REPLAY}
 # the persistence model loads TWO maps, each with its own position and alignment keyword: its model unit (C15w) carries the placement obligation
 from . import C15w as _C15w  # noqa: E402
 unit("C20", "models.persistence_maps")(_C15w.full_persistence_model)
+
+
+# ---- bounded native audit: every supported storage format is read back with the same shape and values by every loader ---------------------
+FORMATS_AUDIT = lambda w: {"code": """
+import numpy as np, tempfile, os, warnings
+from pathlib import Path
+from astropy.io import fits
+from pyxel.inputs import load_image, load_image_v2, load_table, load_table_v2
+warnings.simplefilter('ignore')
+d = Path(tempfile.mkdtemp())
+VIOLATED, DETAIL = False, 'every loader reads every supported format back with the same shape and values'
+arrays = [np.arange(6.0).reshape(2, 3) + 0.5, np.arange(5.0).reshape(1, 5), np.arange(4.0).reshape(4, 1) - 1.5, np.array([[7.25]]), np.arange(12.0).reshape(3, 4) * 1e3]
+def same(got, a):
+    got = np.asarray(got, dtype=float)
+    return got.shape == a.shape and np.array_equal(got, a)
+n = 0
+for a in arrays:
+    if VIOLATED: break
+    files = {}
+    f = d / f'a{n}.npy'; np.save(f, a); files['npy'] = f
+    f = d / f'a{n}.fits'; fits.PrimaryHDU(a).writeto(f, overwrite=True); files['fits'] = f
+    for tag, sep in (('tab', '\\t'), ('space', ' '), ('comma', ','), ('bar', '|'), ('semicolon', ';')):
+        for suffix in ('.txt', '.data'):
+            f = d / f'a{n}_{tag}{suffix}'; np.savetxt(f, a, delimiter=sep); files[tag + suffix] = f
+    n += 1
+    for kind, f in files.items():
+        try:
+            if not same(load_image(f), a):
+                VIOLATED, DETAIL = True, f'load_image({kind}) of a {a.shape} array: shape {np.asarray(load_image(f)).shape}, values {np.asarray(load_image(f)).ravel()[:4]}'; break
+            got2 = load_image_v2(f, rename_dims={})
+            if not same(got2.values, a) or list(got2.dims) != ['y', 'x']:
+                VIOLATED, DETAIL = True, f'load_image_v2({kind}) of a {a.shape} array: dims {got2.dims} shape {got2.shape}'; break
+            if kind not in ('fits',):
+                t = load_table(f, header=False) if kind != 'npy' else load_table(f)
+                if not same(np.asarray(t), a):
+                    VIOLATED, DETAIL = True, f'load_table({kind}) of a {a.shape} array: shape {np.asarray(t).shape}, values {np.asarray(t).ravel()[:4]}'; break
+        except Exception as e:
+            VIOLATED, DETAIL = True, f'{kind} file of a {a.shape} array: {type(e).__name__}: {e}'; break
+""", "expect": "load_image, load_image_v2 and load_table read npy, FITS and text with the five delimiters back unchanged",
+    "bound": "5 arrays (2x3, 1x5, 4x1, 1x1, 3x4) x {npy, fits, txt and data files with tab / space / comma / bar / semicolon} x 3 loaders", "function": "pyxel/inputs/loader.py"}
+AUDITS = {"formats.roundtrip": FORMATS_AUDIT}
